@@ -512,4 +512,22 @@ example : (match assemble false [] "halt\nlbl .break\n".toList with
        | .error _ => false)
     | _ => false) = true := by decide +kernel
 
+/-- **A cell is cut only when its text does not fit, and every cut text is longer than every text
+shown whole.**  In one column (one width `w ≥ 2`): a text is shown cut (its first `w − 2` characters,
+then `…`) exactly when it has more than `w − 2` characters; a text `t` that is shown whole has fewer
+characters than any text `s` that is shown cut, and fewer than the cut cell itself shows.  This is the
+width-independent reading the correspondence check applies to the implementation's own tables
+(`_cut_consistent` in checklib/props.py). -/
+theorem cut_only_what_does_not_fit (s t : List Char) (w : Nat) (hw : 2 ≤ w)
+    (hs : w - 2 < s.length) (ht : t.length ≤ w - 2) :
+    bpCell s w = s.take (w - 2) ++ ['…'] ∧
+    bpCell t w = t ++ List.replicate (w - 1 - t.length) ' ' ∧
+    t.length < s.length ∧ t.length < (s.take (w - 2) ++ ['…']).length := by
+  refine ⟨bpCell_truncates s w hs, bpCell_fits t w ht, by omega, ?_⟩
+  simp only [List.length_append, List.length_take, List.length_cons, List.length_nil]
+  omega
+
+example : bpCell "abcdefghijklmnopqrstuvwxyz!".toList 28 = "abcdefghijklmnopqrstuvwxyz".toList ++ ['…'] ∧
+    bpCell "äöü".toList 28 = "äöü".toList ++ List.replicate 24 ' ' := by decide
+
 end Lace.C17
